@@ -3,7 +3,7 @@
    (the production trees of mediaquery.py / medialist.py / value.py, regenerated from the source on every run).
    Every theorem is stated for ALL production trees, environments of sub-grammars, option sets and token lists
    unless a grammar is named.                                                                                 *)
-From CssV Require Import Base Regex Tokenizer ProdParser ProdParserFacts Gen.ProdTrees ProdParserSafe ProdParserBridge.
+From CssV Require Import Base Regex Tokenizer ProdParser ProdParserFacts Gen.ProdTrees ProdParserSafe ProdParserBridge ProdParserItems ProdParserDepth.
 From CssV Require Globals Gen.GlobalSites ParseTotal ParseSkel.
 Local Open Scope nat_scope.
 
@@ -148,3 +148,82 @@ Theorem stash_events_globals :
   exists ob, Globals.do_ev st true (ev_of enc e) (embed enc g sh) = Some (embed enc g (sdo sh e), ob, true).
 Proof. exact do_ev_sdo. Qed.
 Print Assumptions stash_events_globals.
+
+(* ---- pparse_consumes_prefix: the seq items, the token handed back and the unused tokens are, IN ORDER, a subsequence
+   of the input: every item is anchored at its own input token (made from it by a toSeq callback, as a comment, as kept
+   whitespace, or as the object of the sub-parser started on it); tokens are dropped (S/COMMENT handling, toSeq=False,
+   tokens eaten by sub-parsers, the failing token), never invented, duplicated or reordered *)
+Theorem pparse_consumes_prefix :
+  forall d env clear o t toks sh r,
+  clear = true \/ length (saved sh) <= 1 ->
+  pparse d env clear o t toks sh = Ret r ->
+  exists ts, Forall2 anchor (r_items r) ts /\
+             Sub (ts ++ saved (r_stash r) ++ rfull r) ((if clear then [] else saved sh) ++ toks).
+Proof. exact pparse_items_in_order. Qed.
+Print Assumptions pparse_consumes_prefix.
+
+(* ---- the value grammar (PropertyValue and everything below it, a cyclic call graph): on every token run the
+   tokenizer can produce, for EVERY depth budget d, the constructor returns or the nesting exceeds the budget
+   (Python: RecursionError) -- never Crash, never Spin, never out of loop fuel *)
+Theorem property_value_total_mod_depth :
+  forall d toks, sane_toks toks ->
+  pparse_env d env_real gid_PropertyValue toks = DepthOut \/
+  exists r, pparse_env d env_real gid_PropertyValue toks = Ret r /\ post PostPV r <> PCrash.
+Proof. exact ProdParserSafe.property_value_total_mod_depth. Qed.
+Print Assumptions property_value_total_mod_depth.
+Theorem value_ctor_total_mod_depth :
+  forall g, 8 <= g <= 11 -> forall d toks, sane_toks toks ->
+  exists pc, postof_env env_real g = Some pc /\
+  (pparse_env d env_real g toks = DepthOut \/ exists r, pparse_env d env_real g toks = Ret r /\ post pc r <> PCrash).
+Proof. exact ProdParserSafe.value_ctor_total_mod_depth. Qed.
+Print Assumptions value_ctor_total_mod_depth.
+(* the public constructors Value / URIValue / DimensionValue / ColorValue DO raise on their own (findings
+   PP-*-ctor-leading-comment, PP-value-ctor-eof): as sub-parsers their first token is the one the caller matched *)
+Theorem value_leaf_ctor_total_refuted :
+  sane_toks [eof_tok] /\ sane_toks [tk "COMMENT" "/**/"; tk "NUMBER" "1"] /\
+  build 3 env_real gid_Value [eof_tok] = Some PCrash /\
+  build 3 env_real gid_URIValue [eof_tok] = Some PCrash /\
+  build 3 env_real gid_DimensionValue [tk "COMMENT" "/**/"; tk "NUMBER" "1"] = Some PCrash /\
+  build 3 env_real gid_ColorValue [tk "COMMENT" "/**/"; tk "IDENT" "red"] = Some PCrash.
+Proof. exact value_ctor_refuted. Qed.
+Print Assumptions value_leaf_ctor_total_refuted.
+
+(* ---- the side condition `sane` is a theorem about the tokenizer model: every token list Tokenizer.tokenize returns is
+   sane (STRING tokens are quoted: C01's string_tokens_quoted_lemma; S tokens are never + or -), hence the media leaf
+   returns on every run cut out of a tokenized text -- the unconditional form of C01's leaves_total for LMediaQuery *)
+Theorem tokenize_sane :
+  forall dc fs text toks, tokenize dc fs text = Some toks -> sane_toks toks.
+Proof. exact ProdParserBridge.tokenize_sane. Qed.
+Print Assumptions tokenize_sane.
+Theorem media_leaf_returns_tokenized :
+  forall (St : Type) (commit : St -> bool -> list item -> St) dc fs text toks run st,
+  tokenize dc fs text = Some toks -> (forall t, In t run -> In t toks) ->
+  exists st', media_leaf St commit st run = ParseTotal.Returned st'.
+Proof. exact ProdParserBridge.media_leaf_returns_tokenized. Qed.
+Print Assumptions media_leaf_returns_tokenized.
+
+(* ---- the recursion depth of the value grammar is bounded by the number of tokens (every sub-parser consumes its first
+   token with a production that starts no sub-parser: first_plain, checked on the regenerated trees), so with a depth
+   budget above the token count the PropertyValue constructor RETURNS on every sane token run -- the value half of C01's
+   leaf LProperty; Python's RecursionError needs more nested functions than the interpreter stack allows (C01's open
+   nested-function finding), nothing else.  The bound is tight (depth_bound_tight). *)
+Theorem property_value_no_depthout :
+  forall toks d, length toks < d -> pparse_env d env_real gid_PropertyValue toks <> DepthOut.
+Proof. exact ProdParserDepth.property_value_no_depthout. Qed.
+Print Assumptions property_value_no_depthout.
+Theorem property_value_total :
+  forall toks d, sane_toks toks -> length toks < d ->
+  exists r, pparse_env d env_real gid_PropertyValue toks = Ret r /\ post PostPV r <> PCrash.
+Proof. exact ProdParserDepth.property_value_total. Qed.
+Print Assumptions property_value_total.
+Theorem value_ctor_total :
+  forall g, 8 <= g <= 11 -> forall toks d, sane_toks toks -> length toks < d ->
+  exists pc r, postof_env env_real g = Some pc /\ pparse_env d env_real g toks = Ret r /\ post pc r <> PCrash.
+Proof. exact ProdParserDepth.value_ctor_total. Qed.
+Print Assumptions value_ctor_total.
+Theorem value_leaf_returns_tokenized :
+  forall (St : Type) (commit : St -> bool -> list item -> St) dc fs text toks run st,
+  tokenize dc fs text = Some toks -> (forall t, In t run -> In t toks) ->
+  exists st', value_leaf St commit st run = ParseTotal.Returned st'.
+Proof. exact ProdParserBridge.value_leaf_returns_tokenized. Qed.
+Print Assumptions value_leaf_returns_tokenized.
